@@ -21,6 +21,7 @@ type PtrVal struct {
 	Obj *Obj      // nil: null (or an integer cast to a pointer)
 	Off *sym.Term // 64-bit
 	Fn  *Func     // function pointer
+	Lim *sym.Term // when set: end offset (exclusive) of the innermost array this pointer was derived from by indexing
 }
 
 type AggVal struct{ E []Val }
